@@ -1,11 +1,100 @@
-//! C06 — not built yet.
+//! C06 — ordering contract: arbitrary call sequences incl. duplicates and out-of-order keys.
 use crate::common::*;
+use crate::core::*;
+
 pub struct P;
-impl Prop for P {
-    fn generate(&self, _tier: Tier, _rng: &mut Rng, _stats: &mut Stats) -> Vec<String> {
-        vec![]
+
+fn all_sequences(universe: &[Vec<u8>], len: usize) -> Vec<Vec<Vec<u8>>> {
+    let mut out = vec![vec![]];
+    for _ in 0..len {
+        let mut nx = vec![];
+        for s in &out {
+            for k in universe {
+                let mut t: Vec<Vec<u8>> = s.clone();
+                t.push(k.clone());
+                nx.push(t);
+            }
+        }
+        out = nx;
     }
-    fn execute(&self, _case: &str) -> String {
-        String::new()
+    out
+}
+
+impl Prop for P {
+    fn generate(&self, tier: Tier, rng: &mut Rng, stats: &mut Stats) -> Vec<String> {
+        let mut cases = vec![];
+        let uni: Vec<Vec<u8>> = vec![vec![], b"a".to_vec(), b"ab".to_vec(), b"b".to_vec(), b"ba".to_vec()];
+        let maxlen = match tier { Tier::Quick => 4, Tier::Thorough => 5, Tier::Wide => 4 };
+        for l in 0..=maxlen {
+            for seq in all_sequences(&uni, l) {
+                // maps (values = position + 1) and sets, through single calls on each builder kind
+                let mops: Vec<Op> = seq.iter().enumerate().map(|(i, k)| Op::Insert(k.clone(), (i + 1) as u64)).collect();
+                let sops: Vec<Op> = seq.iter().map(|k| Op::Add(k.clone())).collect();
+                if l == maxlen && tier != Tier::Thorough && rng.below(3) != 0 {
+                    // sample the largest layer in the quick tier, raw builder only
+                    cases.push(build_case("calls", "raw", 0, 10_000, 2, &mops));
+                    cases.push(build_case("calls", "raw", 0, 10_000, 2, &sops));
+                    continue;
+                }
+                for fe in ["raw", "map"] {
+                    cases.push(build_case("calls", fe, 0, 10_000, 2, &mops));
+                }
+                for fe in ["raw", "set"] {
+                    cases.push(build_case("calls", fe, 0, 10_000, 2, &sops));
+                }
+                if l <= 3 || tier == Tier::Thorough {
+                    for (sem, fe) in [("extend", "raw_iter"), ("extend", "raw_stream"), ("extend", "map_iter"), ("extend", "map_stream"), ("fromiter", "map"), ("fromiter", "raw_map")] {
+                        cases.push(build_case(sem, fe, 0, 10_000, 2, &mops));
+                    }
+                    for (sem, fe) in [("extend", "set_iter"), ("extend", "set_stream"), ("fromiter", "set"), ("fromiter", "raw_set")] {
+                        cases.push(build_case(sem, fe, 0, 10_000, 2, &sops));
+                    }
+                }
+                stats.bump(&format!("exhaustive_len_{}", l));
+            }
+        }
+        // mixed add/insert on the raw builder
+        for seq in all_sequences(&uni[..4], 3) {
+            for mask in 0..8u32 {
+                let ops: Vec<Op> = seq.iter().enumerate().map(|(i, k)| if mask >> i & 1 == 1 { Op::Insert(k.clone(), 5 + i as u64) } else { Op::Add(k.clone()) }).collect();
+                cases.push(build_case("calls", "raw", 0, 10_000, 2, &ops));
+            }
+            stats.bump("mixed_add_insert_len_3");
+        }
+        // random long histories with an error rate
+        let nrand = match tier { Tier::Quick => 400, Tier::Thorough => 6000, Tier::Wide => 1600 };
+        for _ in 0..nrand {
+            let ks = random_keyset(rng, 40, 6);
+            let err_pct = rng.below(51);
+            let mut ops = vec![];
+            let is_set = rng.chance(1, 2);
+            for (i, k) in ks.iter().enumerate() {
+                if rng.below(100) < err_pct {
+                    // inject a smaller key, a duplicate of the previous key, or the empty key
+                    let bad = match rng.below(3) {
+                        0 => ks[rng.below((i + 1) as u64) as usize].clone(),
+                        1 => if i > 0 { ks[i - 1].clone() } else { vec![] },
+                        _ => vec![],
+                    };
+                    ops.push(if is_set { Op::Add(bad) } else { Op::Insert(bad, rng.below(1000)) });
+                }
+                ops.push(if is_set { Op::Add(k.clone()) } else { Op::Insert(k.clone(), rng.below(1 << 40)) });
+            }
+            let fes: &[(&str, &str)] = if is_set {
+                &[("calls", "raw"), ("calls", "set"), ("extend", "set_iter"), ("extend", "set_stream"), ("fromiter", "set")]
+            } else {
+                &[("calls", "raw"), ("calls", "map"), ("extend", "map_iter"), ("extend", "raw_stream"), ("fromiter", "map")]
+            };
+            let (sem, fe) = *rng.pick(fes);
+            cases.push(build_case(sem, fe, 0, 10_000, 2, &ops));
+            stats.bump(&format!("random_errrate_{}0s", err_pct / 10));
+        }
+        cases
+    }
+    fn nontrivial(&self, case: &str) -> bool {
+        case.matches(',').count() >= 1
+    }
+    fn execute(&self, case: &str) -> String {
+        exec_build_case(&case["build ".len()..])
     }
 }
